@@ -221,23 +221,24 @@ theorem padTo_kwargs_eq (pt : PT) (padDur : Expr) (finals : List (Chan × Expr))
 theorem padTo_concat (pt : PT) (padDur : Expr) (finals : List (Chan × Expr)) :
     padTo pt padDur finals false none = concatenate [pt, .const none padDur finals []] none [] [] := rfl
 
-/-- `RepetitionPT(body, c, constraints).with_repetition(k)` — the merged template with count `c * k` — denotes
-exactly the pulse of the explicit nesting whenever both counts evaluate to natural numbers and the constraints
-hold (`_partial`: see the counterexample below for negative counts) -/
+/-- `RepetitionPT(body, c, constraints).with_repetition(k)` — the merged template with count
+`Max(0, c) * Max(0, k)` (PF-C05d repaired) — denotes exactly the pulse of the explicit nesting whenever both
+counts evaluate to integers of ANY sign and the constraints hold (`_partial`: with violated constraints and
+`k ≤ 0` the explicit nesting does not look at them; a non-integer count is rejected by the explicit nesting only) -/
 theorem withRepetition_merge_denote_partial (body : PT) (c k : Expr) (cons : List Expr) (σ : Scope)
-    (mm : List (MName × Option MName)) (cm : List (Chan × Option Chan)) (n m : Nat)
+    (mm : List (MName × Option MName)) (cm : List (Chan × Option Chan)) (n m : Int)
     (hcons : validateCons cons σ.look = .ok ())
     (hc : σ.eval c = .ok (n : Rat)) (hk : σ.eval k = .ok (m : Rat)) :
     denote (withRepetition (.rep none body c [] cons) k) σ mm cm =
       denote (withRepetitionExplicit (.rep none body c [] cons) k) σ mm cm :=
   withRepetition_merge_denote body c k cons σ mm cm n m hcons hc hk
 
-/-- PF-C05d: merging the counts in `RepetitionPT.with_repetition` is wrong when both counts are negative
-(n = -2, k = -3: the merged template lasts 6, the explicit nesting is empty) -/
-theorem withRepetition_merge_counterexample :
+/-- regression of PF-C05d: two negative counts (n = -2, k = -3) — the merged template and the explicit nesting
+both denote the empty pulse (before the repair the merged count `n * k = 6` played the body six times) -/
+theorem withRepetition_merge_negative :
     (match denote (withRepetition (.rep none (.const none (.lit 1) [("A", .lit 1)] []) (.var "n") [] []) (.var "k"))
         (.dict [("n", -2), ("k", -3)]) [] [("A", some "A")] with
-      | .ok p => some p.dur | .error _ => none) = some 6 ∧
+      | .ok p => some p.dur | .error _ => none) = some 0 ∧
     (match denote (withRepetitionExplicit (.rep none (.const none (.lit 1) [("A", .lit 1)] []) (.var "n") [] []) (.var "k"))
         (.dict [("n", -2), ("k", -3)]) [] [("A", some "A")] with
       | .ok p => some p.dur | .error _ => none) = some 0 := by
